@@ -86,3 +86,186 @@ pub fn pending() -> usize {
 
 pub use crate::decoding::VerifDecodeBuffer as DecodeBuffer;
 pub use crate::decoding::VerifRingBuffer as RingBuffer;
+
+// ---------------------------------------------------------------------------------------------
+// Pass-through wrappers for crate-private pure functions (decoder and encoder side). Every wrapper
+// calls the production function unchanged and returns plain values.
+// ---------------------------------------------------------------------------------------------
+pub use crate::decoding::sequence_execution::verif_do_offset_history as do_offset_history;
+pub use crate::decoding::sequence_section_decoder::{
+    verif_lookup_ll_code as lookup_ll_code, verif_lookup_ml_code as lookup_ml_code,
+};
+
+/// Encoder side serialisation helpers of `encoding::blocks::compressed`
+pub mod enc {
+    use crate::encoding::blocks::verif_exports as x;
+    use std::vec::Vec;
+    pub fn literal_length(len: u32) -> (u8, u32, usize) {
+        x::literal_length(len)
+    }
+    pub fn match_len(len: u32) -> (u8, u32, usize) {
+        x::match_len(len)
+    }
+    pub fn offset(len: u32) -> (u8, u32, usize) {
+        x::offset(len)
+    }
+    pub fn seqnum(seqnum: usize) -> Vec<u8> {
+        x::seqnum(seqnum)
+    }
+    pub fn raw_literals(literals: &[u8]) -> Vec<u8> {
+        x::raw_literals(literals)
+    }
+    pub fn compress_literals(
+        literals: &[u8],
+        last_table: Option<&crate::huff0::huff0_encoder::HuffmanTable>,
+    ) -> (Vec<u8>, Option<crate::huff0::huff0_encoder::HuffmanTable>) {
+        x::compress_literals(literals, last_table)
+    }
+}
+
+/// Sequences section header: (number of sequences, modes byte if present, bytes read)
+pub fn parse_sequences_header(raw: &[u8]) -> Result<(u32, Option<u8>, u8), std::string::String> {
+    use std::string::ToString;
+    let mut h = crate::blocks::sequence_section::SequencesHeader::new();
+    let n = h.parse_from_header(raw).map_err(|e| e.to_string())?;
+    let modes = h.modes.map(|m| {
+        use crate::blocks::sequence_section::ModeType;
+        let b = |m: ModeType| match m {
+            ModeType::Predefined => 0u8,
+            ModeType::RLE => 1,
+            ModeType::FSECompressed => 2,
+            ModeType::Repeat => 3,
+        };
+        (b(m.ll_mode()) << 6) | (b(m.of_mode()) << 4) | (b(m.ml_mode()) << 2)
+    });
+    Ok((h.num_sequences, modes, n))
+}
+
+/// Literals section header: (type 0..3, regenerated size, compressed size, streams, bytes read)
+pub fn parse_literals_header(
+    raw: &[u8],
+) -> Result<(u8, u32, Option<u32>, Option<u8>, u8), std::string::String> {
+    use crate::blocks::literals_section::{LiteralsSection, LiteralsSectionType};
+    use std::string::ToString;
+    let mut s = LiteralsSection::new();
+    let n = s.parse_from_header(raw).map_err(|e| e.to_string())?;
+    let t = match s.ls_type {
+        LiteralsSectionType::Raw => 0,
+        LiteralsSectionType::RLE => 1,
+        LiteralsSectionType::Compressed => 2,
+        LiteralsSectionType::Treeless => 3,
+    };
+    Ok((t, s.regenerated_size, s.compressed_size, s.num_streams, n))
+}
+
+/// Block header: (last, type 0..2, decompressed size, content size)
+pub fn parse_block_header(raw: [u8; 3]) -> Result<(bool, u8, u32, u32), std::string::String> {
+    use crate::blocks::block::BlockType;
+    use std::string::ToString;
+    let mut d = crate::decoding::block_decoder::new();
+    let (h, _) = d.read_block_header(&raw[..]).map_err(|e| e.to_string())?;
+    let t = match h.block_type {
+        BlockType::Raw => 0,
+        BlockType::RLE => 1,
+        BlockType::Compressed => 2,
+        BlockType::Reserved => 3,
+    };
+    Ok((h.last_block, t, h.decompressed_size, h.content_size))
+}
+
+/// Frame header: (descriptor byte, window size or error text, dictionary id, content size, header bytes)
+#[allow(clippy::type_complexity)]
+pub fn parse_frame_header(
+    raw: &[u8],
+) -> Result<(u8, Result<u64, std::string::String>, Option<u32>, u64, u8), std::string::String> {
+    use std::string::ToString;
+    let (h, n) = crate::decoding::frame::read_frame_header(raw).map_err(|e| e.to_string())?;
+    Ok((
+        h.descriptor.0,
+        h.window_size().map_err(|e| e.to_string()),
+        h.dictionary_id(),
+        h.frame_content_size(),
+        n,
+    ))
+}
+
+/// Encoder block header bytes
+pub fn serialize_block_header(last: bool, ty: u8, size: u32) -> Vec<u8> {
+    use crate::blocks::block::BlockType;
+    let mut out = Vec::new();
+    crate::encoding::block_header::BlockHeader {
+        last_block: last,
+        block_type: match ty {
+            0 => BlockType::Raw,
+            1 => BlockType::RLE,
+            _ => BlockType::Compressed,
+        },
+        block_size: size,
+    }
+    .serialize(&mut out);
+    out
+}
+
+/// Encoder frame header bytes
+pub fn serialize_frame_header(
+    frame_content_size: Option<u64>,
+    single_segment: bool,
+    content_checksum: bool,
+    dictionary_id: Option<u64>,
+    window_size: Option<u64>,
+) -> Vec<u8> {
+    let mut out = Vec::new();
+    crate::encoding::frame_header::FrameHeader {
+        frame_content_size,
+        single_segment,
+        content_checksum,
+        dictionary_id,
+        window_size,
+    }
+    .serialize(&mut out);
+    out
+}
+
+/// FSE encoder: table description bytes as written by `write_table`
+pub fn fse_write_table(table: &crate::fse::fse_encoder::FSETable) -> Vec<u8> {
+    let mut w = crate::bit_io::BitWriter::new();
+    table.write_table(&mut w);
+    w.dump()
+}
+
+/// FSE encoder: table description followed by the stream (one state, or two interleaved states)
+pub fn fse_encode(
+    table: crate::fse::fse_encoder::FSETable,
+    data: &[u8],
+    interleaved: bool,
+) -> Vec<u8> {
+    let mut w = crate::bit_io::BitWriter::new();
+    {
+        let mut e = crate::fse::fse_encoder::FSEEncoder::new(table, &mut w);
+        if interleaved {
+            e.encode_interleaved(data);
+        } else {
+            e.encode(data);
+        }
+    }
+    w.dump()
+}
+
+/// Huffman encoder: optional table description, then one or four streams
+pub fn huf_encode(
+    table: &crate::huff0::huff0_encoder::HuffmanTable,
+    data: &[u8],
+    with_table: bool,
+    four_streams: bool,
+) -> Vec<u8> {
+    let mut w = crate::bit_io::BitWriter::new();
+    {
+        let mut e = crate::huff0::huff0_encoder::HuffmanEncoder::new(table, &mut w);
+        if four_streams {
+            e.encode4x(data, with_table);
+        } else {
+            e.encode(data, with_table);
+        }
+    }
+    w.dump()
+}
